@@ -542,7 +542,7 @@ func runC15(t *testing.T, rep *mc.Reporter) {
 		rep.Machinery("cannot load replay: "+err.Error(), nil)
 		return
 	} else if rp != nil {
-		if c15tReplay(t, rep, rp) {
+		if c15rReplay(t, rep, rp) || c15tReplay(t, rep, rp) {
 			return
 		}
 		var scn c15Scenario
@@ -700,4 +700,5 @@ func runC15(t *testing.T, rep *mc.Reporter) {
 		}
 	}
 	runC15Ticker(t, rep, budget)
+	runC15Run(t, rep, budget)
 }
